@@ -21,7 +21,8 @@ EXPLANATION = (
     "(polynomial normal-form comparison; witness: a single-edge graph has optimum 1 = |E|); (R3) every candidate that "
     "can become the lower bound is a tabled provider combined by max, width queries ignore the synthetic source/sink "
     "edges together with the user's ignore set, provider functions return len() of a *solved* sub-model's solution; "
-    "(R4) no process exit is reachable; (R6) the caller's options dict - from which the `lowerbound_k` option is read - and the other "
+    "(R4) no process exit is reachable; (R7) node-weighted input and its subpath constraints reach the model through total translators "
+    "following the expansion scheme (dropping a constraint element weakens the problem and lowers the reported minimum); (R6) the caller's options dict - from which the `lowerbound_k` option is read - and the other "
     "input objects are never written (sub-searches work on copies), so a bound computed for one graph cannot leak into the search on another.  NOT decided: minimality, completeness, validity of each provider as a bound."
 )
 DECIDED = ["search protocol of MinFlowDecomp.solve on every path", "range reaches the largest attainable optimum",
@@ -96,3 +97,6 @@ def run(prog: Program, rep, pid: str, cls: str, sol_key: str, allow_log2: bool, 
 
 def check(prog: Program, rep):
     run(prog, rep, "C03", CLS, SOL_KEY, True, 5)
+    rep.rule("C03.R7", "node-weighted input and its subpath constraints reach the model unchanged (expansion scheme, total translators; C11.R3)", floor=14)
+    from rules.common import node_mode_plumbing
+    node_mode_plumbing(prog, rep, "C03.R7")
